@@ -1,4 +1,4 @@
-"""C14 No datagram can crash or wedge the mDNS services (panic clause)."""
+"""C14 No datagram can crash or wedge the mDNS services (panic and termination clauses)."""
 import re
 from common import Report, Violation, where_of
 import panicrule
@@ -28,7 +28,7 @@ def run(ctx):
     report = Report("C14", ctx, "R1: no undischarged panic site reachable from the receive loops of the responder, the "
                     "service-discovery listener and the one-shot resolver (sync and async back-ends), across the crate "
                     "boundary into simple_dns; R2: no open site is reachable while a RwLock guard is alive, which is what "
-                    "discharges the LockResult::unwrap sites; R4: no Display/Debug impl reached from there constructs fmt::Error; R3: buffer slicing by the received count uses the recv_from "
+                    "discharges the LockResult::unwrap sites; R5: every loop reached while handling one datagram (the receive / wait loops themselves excepted) has a progress measure; R4: no Display/Debug impl reached from there constructs fmt::Error; R3: buffer slicing by the received count uses the recv_from "
                     "post-condition.")
     rs = roots(ctx, report)
     reach = panicrule.check_panics(ctx, report, rs, "C14-R1", "C14", skip_kinds=("call:alloc",), lock_rule=True)
@@ -56,6 +56,23 @@ def run(ctx):
     report.extra["display_impls_reached"] = sorted(ctx.prog.bodies[x].qname for x in fmt_roots)
     if not n_err:
         report.nontriv("no fmt::Error constructed")
+    # R5 (wedge): below the receive / wait loops themselves - which are meant to run for as long as the service lives or the
+    # caller's timeout allows - every loop reached while handling one datagram has a progress measure
+    import loops
+    WAIT_LOOPS = re.compile(r"::(responder_loop|receive_packets_loop|execution_loop|get_next_response|query_packet|query_service_address|"
+                            r"query_service_address_and_port|refresh_known_instances)(::\{closure#\d+\})*$")
+    from common import load_tsv
+    assumed_finite = {r[0]: r[1] for r in load_tsv("assumed_loops.tsv")}
+
+    def is_coroutine(bb):
+        # the state machine of an async fn: its cycles are resume edges, not loops of the source (its source loops are the
+        # wait loops excluded above; the synchronous functions it calls are analysed on their own)
+        return bb.kind == "Closure" and bb.argc >= 1 and ("{async" in bb.local_ty(1)["s"] or "Pin<&mut" in bb.local_ty(1)["s"])
+    handled = {bid: reach[bid] for bid in reach if not WAIT_LOOPS.search(ctx.prog.bodies[bid].qname)
+               and not is_coroutine(ctx.prog.bodies[bid]) and ctx.prog.bodies[bid].qname not in assumed_finite}
+    report.extra["loops_assumed_finite"] = [{"fn": k, "reason": v} for k, v in sorted(assumed_finite.items())]
+    n_loops = loops.check_loops(ctx, report, handled, "C14-R5")
+    report.floor("loops reached while handling a datagram", n_loops, 10)
     report.floor("LockResult::unwrap sites in datagram handling", len(locks), 3)
     report.assumptions += ["A-OVF", "allocation failure out of scope",
                            "locks are only poisoned by panics in the analysed code (application callbacks are channel sends)",
